@@ -141,5 +141,47 @@ CHECKS['C14'] = {
     'technique': 'single-writer (ownership) rules + path-condition case analysis vs spec terms',
 }
 
+CHECKS['C16'] = {
+    'level': 'Writer/reader tables: operation class -> verb (from_game_state) composed with verb -> method (parse_action) and method -> record class '
+             '(operations) is the identity; player numbering inverse; every serialisable field create_game consumes is populated by from_game_state and '
+             'listed for dumping; constructor keyword names per variant; repair branches call the operation their guard names; leftover actions raise; '
+             'bool before int; totality of the TOML string/key writer over str by abstract interpretation over the character classes of the TOML grammar.',
+    'note': 'Decides agreement of the two directions of the format and totality of the writer. Does NOT decide textual identity of dump(load(dump(x))) on '
+            'concrete values nor tomllib itself.',
+    'technique': 'writer/reader table agreement + abstract interpretation of the TOML writer over grammar character classes',
+}
+CHECKS['C17'] = {
+    'level': 'Sibling agreement of the two protocol writers with each other and with the patterns and dispatch of the parser: action letters, cumulative '
+             'no-limit raise size (-payoff) and its inverse per-street conversion with the baseline updated exactly at a separator, card visibility per '
+             'viewer, payoff field, variant gates, terminal-only parse.',
+    'note': 'Decides the clause-level agreement of writers and parser. Does NOT decide equality of emitted lines with the played hand on concrete histories.',
+    'technique': 'cross-check of sibling implementations (two writers, one parser) against one letter/amount table',
+}
+CHECKS['C18'] = {
+    'level': 'Static evaluation of the suit-combination expressions of the range parser over the four suits (6/4/12/16, disjointness and union), recursion '
+             'of the + / - forms through base forms with the suitedness marker kept, separators, the nullable-maximum rule and share formula of the equity '
+             'calculator, the selection filter over hole cards AND board, unused-deck sampling, and the ICM recurrence.',
+    'note': 'Decides set identities of the notation (finite, evaluated exhaustively over suits) and the structure of the share/ICM formulas. Does NOT decide '
+            'Monte-Carlo values or ICM numerics.',
+    'technique': 'static evaluation of itertools declarations + formula-shape comparison',
+}
+CHECKS['C19'] = {
+    'level': 'Type-dispatch order and arms of clean_values and Card.clean (abstract Mapping before generic Iterable, str before Iterable), card text '
+             '(one distinct character per rank/suit, repr rank-then-suit, parse in two-character steps after 10->T), the complete guard list of '
+             'State.__post_init__ against the rule table (and nothing else rejected), parse_value, and the symbolic identities of the default divmod / rake.',
+    'note': 'Decides that every representation is normalised by the same total dispatch and that exactly the documented invalid layouts are rejected. '
+            'Does NOT decide equality of created states.',
+    'technique': 'dispatch-table extraction + guard-set comparison with spec terms + symbolic identities',
+}
+CHECKS['C20'] = {
+    'level': 'Pattern tables: each site parser defines every pattern the generic driver reads, each matchable regex (parsed with re._parser) carries the '
+             'named groups the driver subscripts (derived from the driver and compared with a table), variant alternatives enumerated from the regex are '
+             'all mapped to PHH codes, the per-site raise-by/raise-to convention as a path summary, the per-street bet table bookkeeping, error handlers '
+             'raise or warn, seat ordering / heads-up reversal / late posts.',
+    'note': 'Decides the structural agreement between patterns, driver and conventions for all six sites. Does NOT decide agreement of a replay with the '
+            'amounts of a concrete log (the corpora are not in the sandbox).',
+    'technique': 'regex-AST (re._parser) group/alternative analysis + sibling agreement of site conventions',
+}
+
 ALL = [f'C{i:02d}' for i in range(1, 21)]
 NOT_APPLICABLE = {p: PENDING for p in ALL if p not in CHECKS}
